@@ -151,6 +151,15 @@ Definition set_meta (n : node) (m : meta) : node :=
   | NSym l _ => NSym l m
   end.
 
+(* baseNode.mayChown (chown_ok / chgrp_ok): an administrator; the owner of the node giving it its own or the node's
+   group and leaving the owner; anybody leaving both as they are *)
+Definition chown_ok (m : meta) (u : user) (uid gid : Z) : bool :=
+  us_admin u
+  || (Z.eqb uid (-1) && Z.eqb gid (-1))
+  || (Z.eqb (m_uid m) (us_uid u)
+      && (Z.eqb uid (-1) || Z.eqb uid (m_uid m))
+      && (Z.eqb gid (-1) || Z.eqb gid (m_gid m) || Z.eqb gid (us_gid u))).
+
 (* node.setOwner: the set-id bits of a node that is not a directory are cleared *)
 Definition chown_meta (n : node) (u : user) (uid gid : Z) : meta :=
   match n with
@@ -725,7 +734,7 @@ Definition chmod (s : fsys) (v : view) (name : str) (mode : N) : fsys * res :=
 
 (* Chown / Lchown, memfs.go:128, 299 *)
 Definition chown_gen (slm : slmode) (s : fsys) (v : view) (name : str) (uid gid : Z) : fsys * res :=
-  if (v_idm v && negb (us_admin (v_user v))) || win v then (s, RFail EOpNotPermitted)
+  if win v then (s, RFail EOpNotPermitted)
   else
     let r := search_node s v name slm in
     match sr_child r with
@@ -733,7 +742,9 @@ Definition chown_gen (slm : slmode) (s : fsys) (v : view) (name : str) (uid gid 
     | Some c =>
         if negb (is_file_exists (sr_err r)) then (s, RFail (sr_err r))
         else match get (f_heap s) c with
-             | Some n => (with_heap s (upd (f_heap s) c (set_meta n (chown_meta n (v_user v) uid gid))), ROk)
+             | Some n =>
+                 if v_idm v && negb (chown_ok (node_meta n) (v_user v) uid gid) then (s, RFail EOpNotPermitted)
+                 else (with_heap s (upd (f_heap s) c (set_meta n (chown_meta n (v_user v) uid gid))), ROk)
              | None => (s, RPanic)
              end
     end.
